@@ -98,6 +98,7 @@ type WCfg struct {
 	Pokers      int // tasks that call IsActive / Context / Trigger concurrently
 	SmallReaders bool // ReadFrom / reader messages carry at most one streaming chunk (1024 bytes)
 	ReaderChunk  int  // > 0: ReadFrom's reader hands out at most this many bytes per Read
+	ReaderShort  bool // ReadFrom's reader starts with a few short reads (sizes from the tape) and may deliver its last bytes together with io.EOF
 }
 
 type pokeEvent struct{}
@@ -187,10 +188,12 @@ func split(b []byte, n int) [][]byte {
 // plainReader is the io.Reader handed to ReadFrom; with max > 0 it delivers at most that many bytes per Read
 // (so that messages are streamed as several chunk writes). It records when each data-carrying Read was requested.
 type plainReader struct {
-	b    []byte
-	call *WCall
-	env  *Env
-	max  int // > 0: at most this many bytes per Read
+	b       []byte
+	call    *WCall
+	env     *Env
+	max     int   // > 0: at most this many bytes per Read
+	plan    []int // sizes of the first reads
+	eofWith bool  // the last bytes come together with io.EOF
 }
 
 func (r *plainReader) Read(p []byte) (int, error) {
@@ -200,9 +203,18 @@ func (r *plainReader) Read(p []byte) (int, error) {
 	if r.max > 0 && len(p) > r.max {
 		p = p[:r.max]
 	}
+	if len(r.plan) > 0 {
+		if r.plan[0] < len(p) {
+			p = p[:r.plan[0]]
+		}
+		r.plan = r.plan[1:]
+	}
 	r.call.noteRead(r.env)
 	n := copy(p, r.b)
 	r.b = r.b[n:]
+	if len(r.b) == 0 && r.eofWith && n > 0 {
+		return n, io.EOF
+	}
 	return n, nil
 }
 
@@ -250,7 +262,14 @@ func (h *WHist) invoke(c *WCall) {
 			n, err := ch.Writer().Write(buf)
 			c.setRes(int64(n), err)
 		case EReadFrom:
-			c.setRes(ch.ReadFrom(&plainReader{b: buf, call: c, env: e, max: h.Cfg.ReaderChunk}))
+			pr := &plainReader{b: buf, call: c, env: e, max: h.Cfg.ReaderChunk}
+			if h.Cfg.ReaderShort {
+				for i, n := 0, 1+e.P(3); i < n; i++ {
+					pr.plan = append(pr.plan, []int{300, 1, 512, 513, 100, 1024}[e.P(6)])
+				}
+				pr.eofWith = e.P(2) == 1
+			}
+			c.setRes(ch.ReadFrom(pr))
 		case EChWrite:
 			err := ch.Write(buf)
 			if err == nil {
